@@ -2,7 +2,7 @@
 // iterator stability, destroy/compare user data.
 #include "common.h"
 
-#include "../../repo/src/tree.c"
+#include "tree.c"  // found through -I <repo>/src
 
 #define MAXN 8192
 
@@ -83,7 +83,9 @@ static void
 wb(void)
 {
   judge();
-  printf(" | size=%zu cmp=%d [", zix_tree_size(tree), cmp_calls);
+  printf(" | size=%zu cmp=%d", zix_tree_size(tree), cmp_calls);
+  v_alloc_put_log(&va, stdout);
+  printf(" [");
   bool first = true;
   dump_rec(tree->root, &first);
   printf("]");
@@ -106,7 +108,8 @@ main(int argc, char** argv)
   char* tok[V_MAX_TOK];
   int   n = 0;
   v_alloc_init(&va);
-  va.logging = false;
+  va.logging = true;   // compact allocator events (C<id> = calloc, M<id> = malloc, f<id> = free, 0 = refused) are part of the white-box output
+  va.compact = true;
   v_setup_io();
   while ((n = v_next(in, tok)) >= 0) {
     if (v_marker(n, tok)) {
@@ -116,6 +119,7 @@ main(int argc, char** argv)
     if (!strcmp(tok[0], "new") && n == 2) {
       if (tree) zix_tree_free(tree);
       reset_ids();
+      v_alloc_reset(&va);   // a new tree starts a new allocator epoch: block 1 is the tree, block k + 1 the k-th node
       tree = zix_tree_new(&va.base, tok[1][0] == '1', cmp, &cmp_tag, destroy, &destroy_tag);
       printf("new");
       wb();
@@ -220,8 +224,12 @@ main(int argc, char** argv)
       }
       if (bad_user_data) printf(" SPEC-FAIL:callback-user-data");
       if (v_alloc_outstanding(&va) || va.n_errors) printf(" SPEC-FAIL:allocator-discipline");
+      printf(" |");
+      v_alloc_put_log(&va, stdout);
       reset_ids();
+      v_alloc_reset(&va);
       tree = zix_tree_new(&va.base, dups, cmp, &cmp_tag, destroy, &destroy_tag);
+      va.log_len = 0;
     } else {
       printf("bad-op");
     }
